@@ -487,8 +487,17 @@ def rule_c17_copy_neg_init(prog: Program, col: Collector) -> None:
         # they must be turned into independent arrays / lists BEFORE the table is cleared
         if inits:
             mat = [e for e in ft.calls() if e.seq < inits[0].seq and (is_call_to(e.term, "numpy.fromiter", "numpy.array", "list", "tuple", "numpy.asarray", "numpy.copy"))]
-            vals_ok = any(has_subterm(e.term, ("param", p[1])) and not is_call_to(e.term, "numpy.asarray") for e in mat)
-            coal_ok = any(has_subterm(e.term, ("param", p[2])) and not is_call_to(e.term, "numpy.asarray") for e in mat)
+            COPYING = ("numpy.fromiter", "numpy.array", "list", "tuple", "numpy.copy")
+
+            def every_path_copies(t, par) -> bool:
+                """Every alternative of the value handed on is a copying materialisation of the parameter (None passes through for the optional list)."""
+                if t[0] in ("phi", "ifexp"):
+                    return every_path_copies(t[2], par) and every_path_copies(t[3], par)
+                if t == ("const", None):
+                    return True
+                return is_call_to(t, *COPYING) and has_subterm(t, par) and not (is_call_to(t, "numpy.array") and dict(t[3]).get("copy") == ("const", False))
+            vals_ok = any(has_subterm(e.term, ("param", p[1])) and not is_call_to(e.term, "numpy.asarray") for e in mat) and every_path_copies(a[0], ("param", p[1]))
+            coal_ok = any(has_subterm(e.term, ("param", p[2])) and not is_call_to(e.term, "numpy.asarray") for e in mat) and every_path_copies(a[1], ("param", p[2]))
             col.check(vals_ok and coal_ok, ref.where(inits[0].node), ref.short,
                       "the given values and coalitions are copied out (np.fromiter / list) before _init_values() clears the table", construct="reset-args-materialised",
                       necessity="the getters hand out live views and lazy generators over this table: g.set_known_values(g.get_values()) would read zeros after the reset and leave "
